@@ -612,15 +612,39 @@ def rule_r6(repo, run):
                 t = pyflow.const_str(node.args[0])
                 if t in CLOSER:
                     opens.append((node, t))
-        # `self.next()  # consume LPAREN peeked at in caller` idiom
-        src = dm.seg(f)
-        for mm in re.finditer(r"self\.next\(\)\s*#\s*consume (LPAREN|bracket)", src):
-            tok = "LPAREN" if mm.group(1) == "LPAREN" else "LBRACKET"
-            line = f.lineno + src[:mm.start()].count("\n")
-            cands = [c for c in ast.walk(f) if isinstance(c, ast.Call) and isinstance(c.func, ast.Attribute)
-                     and c.func.attr == "next" and c.lineno == line]
-            if cands:
-                opens.append((cands[0], tok))
+        # self.next() that consumes an opener which was only peeked at: either under a test
+        # `self.token.typ == "<opener>"` in this method, or as the first action of a method all of whose
+        # callers are under such a test
+        def peeked(node, stop):
+            # the innermost test of the current token's type decides what self.next() consumes
+            tests = pyflow.dominating_tests(node, stop=stop)
+            tests = sorted(tests, key=lambda tp: getattr(tp[0], "lineno", 0))
+            found = None
+            for t, pol in tests:
+                for c in ast.walk(t):
+                    if isinstance(c, ast.Compare) and (pyflow.dotted(c.left) or "") in ("self.token.typ", "self.token.value"):
+                        v = pyflow.const_str(c.comparators[0]) if isinstance(c.ops[0], ast.Eq) and pol else None
+                        found = v if v in CLOSER else None
+            return found
+        for c in ast.walk(f):
+            if isinstance(c, ast.Call) and isinstance(c.func, ast.Attribute) and c.func.attr == "next" \
+                    and pyflow.is_name(c.func.value, "self") and not c.args:
+                tok = peeked(c, f)
+                if tok is None and not pyflow.dominating_tests(c, stop=f):
+                    first = [st for st in f.body if not (isinstance(st, ast.Expr) and (
+                        isinstance(st.value, ast.Constant) or
+                        (isinstance(st.value, ast.Call) and (pyflow.call_name(st.value) or "") == "self.enter")))
+                        and not isinstance(st, ast.Assign)]
+                    if first and isinstance(first[0], ast.Expr) and first[0].value is c:
+                        toks = set()
+                        for g in meths.values():
+                            for call in ast.walk(g):
+                                if isinstance(call, ast.Call) and (pyflow.call_name(call) or "") == "self." + name:
+                                    toks.add(peeked(call, g))
+                        if len(toks) == 1 and None not in toks:
+                            tok = toks.pop()
+                if tok:
+                    opens.append((c, tok))
         for node, tok in opens:
             # hand-rolled counter in attribute(): must raise at EOF
             if name == "attribute":
